@@ -53,8 +53,13 @@ const (
 
 type c11AppEnv struct {
 	*aEnv
-	regs  []*cj.DecoyRegistration // every registration, validated at the top of every case
+	regs  []*cj.DecoyRegistration // every registration of the registry
 	specs []aRegSpec
+	// registry state tracking: the registry is rebuilt at the top of a case unless it provably is in
+	// the wanted initial state already (same variant, and the previous case changed nothing: the
+	// only writes a case can make are MarkActive / the tunnel of a recognised registration)
+	variant int
+	dirty   bool
 }
 
 var c11ResolverOnce sync.Once
@@ -111,7 +116,7 @@ func (e *c11AppEnv) c11MakeDTLSReg(secret int, v6 bool) (*cj.DecoyRegistration, 
 
 func c11NewAppEnv(tb testing.TB) *c11AppEnv {
 	c11NoNetwork()
-	e := &c11AppEnv{aEnv: aNewEnv(tb), specs: c11Specs()}
+	e := &c11AppEnv{aEnv: aNewEnv(tb), specs: c11Specs(), dirty: true}
 	if err := e.rm.AddTransport(pb.TransportType_DTLS, &cdtls.Transport{}); err != nil {
 		tb.Fatalf("harness problem: %v", err)
 	}
@@ -135,6 +140,10 @@ func c11NewAppEnv(tb testing.TB) *c11AppEnv {
 // c11ResetRegistry: registry variant 0 = every registration valid, 1 = empty registry, 2 = only
 // the obfs4 registrations, 3 = everything tracked but nothing validated.
 func (e *c11AppEnv) c11ResetRegistry(variant int) {
+	if !e.dirty && e.variant == variant {
+		return
+	}
+	e.variant, e.dirty = variant, false
 	cj.VerifResetRegistry(e.rm)
 	e.ClearAnns()
 	for _, reg := range e.regs {
@@ -211,6 +220,11 @@ func c11WrapRun(e *c11AppEnv, c c11WrapCase) (classes []string, nontrivial bool,
 	e.c11ResetRegistry(c.Variant)
 	ph := aPhantom(0, c.V6)
 	var cls []string
+	defer func() {
+		if o.Hung || o.Panic != nil {
+			e.dirty = true
+		}
+	}()
 	o = c11h.Guard(c11h.Bound, func() {
 		for tt, t := range e.rm.GetWrappingTransports() {
 			buf := bytes.NewBuffer(append([]byte(nil), c.Data...))
@@ -218,6 +232,9 @@ func c11WrapRun(e *c11AppEnv, c c11WrapCase) (classes []string, nontrivial bool,
 			reg, wrapped, err := t.WrapConnection(buf, conn, ph, e.rm)
 			res := c11ErrName(err)
 			cls = append(cls, tt.String()+":"+res)
+			if err == nil {
+				e.dirty = true
+			}
 			if err == nil && wrapped != nil {
 				_, _ = io.Copy(io.Discard, io.LimitReader(wrapped, 1<<20))
 				if r, ok := reg.(*cj.DecoyRegistration); ok {
@@ -435,6 +452,9 @@ wait:
 	st := &cm.ipv4
 	if c.V6 {
 		st = &cm.ipv6
+	}
+	if o.Hung || o.Panic != nil || designSleep || atomic.LoadInt64(&st.numFound) > 0 {
+		e.dirty = true
 	}
 	switch {
 	case o.Hung || o.Panic != nil:
